@@ -530,6 +530,26 @@ func (t *tr2) call(x *ast.CallExpr, bs *[]bind) string {
 		t.fail(x, "binary.BigEndian.%s is a statement, not an expression", m)
 		return "0"
 	}
+	// sync/atomic integers: one sequential step each
+	if tgt, m, k, ok := t.atomicCall(x); ok {
+		switch {
+		case m == "Load" && len(x.Args) == 0:
+			return t.expr(tgt, bs)
+		case m == "Add" && len(x.Args) == 1:
+			cur := t.expr(tgt, bs)
+			d := t.expr(x.Args[0], bs)
+			tmp := t.freshTmp()
+			*bs = append(*bs, bind{let: true, pat: tmp, rhs: wrap(k, "("+cur+" + "+d+")")})
+			t.assign(tgt, tmp, bs)
+			return tmp
+		case m == "Store" && len(x.Args) == 1:
+			v := t.expr(x.Args[0], bs)
+			t.assign(tgt, v, bs)
+			return "tt"
+		}
+		t.fail(x, "sync/atomic method %s outside the subset (Load, Add, Store)", m)
+		return "0"
+	}
 	var callee *types.Func
 	var recv ast.Expr
 	switch f := x.Fun.(type) {
@@ -576,6 +596,10 @@ func (t *tr2) call(x *ast.CallExpr, bs *[]bind) string {
 	fi, ok := t.g.fns[callee]
 	if !ok {
 		t.fail(x, "call to untranslated function %s", callee.FullName())
+		return "0"
+	}
+	if fi.mut {
+		t.fail(x, "call of the receiver-mutating method %s from translated code unsupported", fi.name)
 		return "0"
 	}
 	sig := callee.Type().(*types.Signature)
